@@ -856,7 +856,10 @@ func reportFailure(bin, dir, prop, tier string, base uint64, d famDesc, f failur
 		infra("replay worker: %v\n%s", err, out)
 	}
 	if rp2.Replay.LogHash != r.LogHash {
-		infra("replay of %s/%s index %d is not exact (log hash %x vs %x)", prop, d.Name, f.Index, rp2.Replay.LogHash, r.LogHash)
+		// two replays of one tape differ: this run involves a choice the simulator does not own (for instance a goroutine
+		// started by a timer of the code under test). Never reported; the caller tries the next witness of the class.
+		fmt.Fprintf(os.Stderr, "note: replay of %s/%s index %d is not exact (log hash %x vs %x); trying another witness\n", prop, d.Name, f.Index, rp2.Replay.LogHash, r.LogHash)
+		return nil
 	}
 	os.MkdirAll(filepath.Join(verifDir, "replays"), 0o755)
 	b, _ := json.MarshalIndent(rf, "", " ")
